@@ -57,7 +57,7 @@ Proof.
   - unfold do_change in H. repeat break_hyp H; inv H; auto.
   - inv H. apply fold_psorted; auto. intros d0 [b [m a]] W0. unfold update_one. break_goal; auto.
   - unfold do_allocrs in H. repeat break_hyp H; inv H; auto. unfold psorted. cbn. apply asorted_aput; auto.
-  - unfold do_commit in H. repeat break_hyp H; inv H; auto.
+  - unfold do_commit, do_commit_unchecked in H. repeat break_hyp H; inv H; auto.
   - unfold do_rshosts in H. repeat break_hyp H; inv H; auto.
   - unfold do_updatesc in H. repeat break_hyp H; inv H; auto. unfold psorted. erewrite put_blob_parts; eauto.
   - inv H; auto.
@@ -132,7 +132,7 @@ Proof.
     cbn. rewrite aget_aput. destruct (q =? n0) eqn:E; [|now left]. apply N.eqb_eq in E; subst.
     destruct (first_part_aget _ _ _ _ S Heqo) as [G1 G2]. right. right. right.
     exists p0, n. rewrite G1. auto.
-  - unfold do_commit in H. repeat break_hyp H; inv H; now left.
+  - unfold do_commit, do_commit_unchecked in H. repeat break_hyp H; inv H; now left.
   - unfold do_rshosts in H. repeat break_hyp H; inv H; now left.
   - unfold do_updatesc in H. repeat break_hyp H; inv H; try now left. pbp. now left.
   - inv H; now left.
@@ -271,7 +271,7 @@ Proof.
   - inv H. left. eapply fold_nonew; [|exact Hh]. intros d0 [b [m a]]. unfold update_one. break_goal; auto.
     cbn. intros Hx. apply has_aput in Hx. destruct Hx as [->|Hx]; auto. eapply live_blob_has; eauto.
   - unfold do_allocrs in H. repeat break_hyp H; inv H; auto.
-  - unfold do_commit in H. repeat break_hyp H; inv H; auto. cbn in Hh. left.
+  - unfold do_commit, do_commit_unchecked in H. repeat break_hyp H; inv H; auto. cbn in Hh. left.
     apply fold_aput_has in Hh. destruct Hh as [Hh|Hh]; auto.
     eapply commit_loop_keys; eauto. intros k Hk. exfalso. apply Hk. reflexivity.
   - unfold do_rshosts in H. repeat break_hyp H; inv H; auto.
@@ -336,7 +336,7 @@ Proof.
   intros d i c d' r id H P Hr.
   destruct (dapply_cases _ _ _ _ _ H) as [[_ [N5 _]]|(A & _)]; [subst r; cbn in N5; congruence|].
   destruct c; cbn [apply_mut] in A; try (subst r; repeat break_hyp A; inv A; fail).
-  all: try (unfold do_extend, do_delete, do_undelete, do_finish, do_setmeta, do_change, do_allocrs, do_commit, do_rshosts, do_updatesc, add_partition in A;
+  all: try (unfold do_extend, do_delete, do_undelete, do_finish, do_setmeta, do_change, do_allocrs, do_commit, do_commit_unchecked, do_rshosts, do_updatesc, add_partition in A;
             subst r; repeat break_hyp A; inv A; fail).
   unfold do_create in A. subst r. repeat break_hyp A; try (inv A; unfold e_GenBlobID, e_NoError in *; discriminate).
   injection A as <- Hid.
@@ -708,7 +708,7 @@ Proof.
     + intros m t t' H1 H2. left. congruence.
     + intros m t' H1 H2. congruence.
   - unfold do_allocrs in H. repeat break_hyp H; inv H; auto.
-  - unfold do_commit in H. repeat break_hyp H; try (inv H; auto; fail). inv H.
+  - unfold do_commit, do_commit_unchecked in H. repeat break_hyp H; try (inv H; auto; fail). inv H.
     cbn [set_tsids set_blobs set_chunks d_blobs] in G. apply fold_aput_get in G.
     destruct G as [G|(bw & Hin & ->)]; [auto|].
     match goal with Hc : commit_loop _ _ _ _ _ = CROk _ |- _ =>
@@ -1025,7 +1025,7 @@ Proof.
     + intros k c0 h G Hh. apply set_add_all_In. right. eapply Hc; eauto.
   - inv H. apply fold_h; auto. intros; apply update_one_h; auto.
   - unfold do_allocrs in H. repeat break_hyp H; inv H; auto; try (eapply same_data_h; eauto; reflexivity).
-  - unfold do_commit in H. repeat break_hyp H; try (inv H; auto; fail). inv H. destruct Ih as [Hb Hc].
+  - unfold do_commit, do_commit_unchecked in H. repeat break_hyp H; try (inv H; auto; fail). inv H. destruct Ih as [Hb Hc].
     split; cbn [set_tsids set_blobs set_chunks d_blobs d_tsids d_chunks].
     + intros id2 b2 t2 h G Ht Hh. apply set_add_all_In. right. apply fold_aput_get in G.
       destruct G as [G|(bw & Hin & ->)]; [eapply Hb; eauto|].
